@@ -1,6 +1,7 @@
 //! One module per property.
 pub mod common;
 pub mod progs;
+pub mod scale;
 pub mod selftest;
 pub mod c01;
 pub mod c02;
@@ -61,6 +62,17 @@ pub fn replay(id: &str, case: &J) -> Option<i32> {
         "C15" => c15::replay(case),
         _ => return None,
     })
+}
+
+/// Runs `f` on a thread with a large stack (deeply nested generated inputs make the harness's own
+/// recursive helpers deep) and returns its result; a panic there is an engine crash.
+pub fn on_big_stack<R: Send + 'static>(f: impl FnOnce() -> R + Send + 'static) -> R {
+    std::thread::Builder::new()
+        .stack_size(1 << 30)
+        .spawn(f)
+        .expect("spawn")
+        .join()
+        .unwrap_or_else(|_| machinery_error("scaling-family worker panicked"))
 }
 
 /// Verdict of a replay: the single case was re-executed into `st`.
